@@ -29,7 +29,7 @@ ASSUMPTIONS = [
   "all geoms overlap by >= 1 cm (checked per case on MuJoCo's geom poses, else the case is rejected)",
 ]
 BUDGET = {
-  "quick": dict(examples=2400, seconds=120, workers=16),
+  "quick": dict(examples=2400, seconds=420, workers=16),
   "thorough": dict(examples=24000, seconds=1200, workers=16),
 }
 
